@@ -23,7 +23,7 @@ EXPLANATION = (
     "tests it on entry; G-YIELD: with facts on self.* killed at every real suspension, each such site that follows a "
     "suspension must still carry the fact `not self._closing`."
 )
-SHARED = [('C10', ['R5', 'R6'], 'a closed broker client arms nothing and fails what is pending')]
+SHARED = [('C10', ['R5', 'R6'], 'a closed broker client arms nothing and fails what is pending'), ('C06', ['R8'], 'a closed bootstrap protocol refuses requests and fails what is pending')]
 ASSUMPTIONS = ["DeferredList fires after every member fired", "endpoint.connect / protocol.request are the only ways the client opens "
                "connections or writes outside _KafkaBrokerClient"]
 KC = "client:KafkaClient"
